@@ -188,6 +188,26 @@ def r20(ctx):
     i_try = [i for i, s in enumerate(cm.node.body) if isinstance(s, ast.Try)]
     ok = bool(i_mk and i_try) and i_mk[0] < i_try[0] and 'exist_ok=True' in body[i_mk[0]]
     ctx.decide('R20.5', cm.qual, 'os.makedirs(MODDIR, exist_ok=True) before the import attempt', ok, cm.node, 'concurrent first use must not fail on the directory')
+    # every creation of a directory with a fixed (shared) name tolerates that another process created it a moment ago: exist_ok=True
+    # or an enclosing try that catches FileExistsError / OSError -- an os.path.exists() test before the call does not (check-then-act)
+    for fi in ctx.prog.funcs_in(CP, include_nested=True):
+        for c in ast.walk(fi.node):
+            if not (isinstance(c, ast.Call) and (call_name(c) or '') in ('os.makedirs', 'os.mkdir')):
+                continue
+            eo = kwarg(c, 'exist_ok', 2)
+            tolerant = eo is not None and src(eo) == 'True'
+            p_ = parent(c)
+            while p_ is not None and p_ is not fi.node and not tolerant:
+                if isinstance(p_, ast.Try):
+                    for h in p_.handlers:
+                        names = {src(x) for x in (h.type.elts if isinstance(h.type, ast.Tuple) else [h.type])} if h.type is not None else {'*'}
+                        if names & {'*', 'FileExistsError', 'OSError', 'Exception', 'BaseException', 'EnvironmentError', 'IOError'}:
+                            tolerant = True
+                p_ = parent(p_)
+            ctx.decide('R20.5', fi.qual, src(c), tolerant, c,
+                       'creation of a shared directory tolerates a concurrent creator' if tolerant else
+                       'two processes that both find the directory missing (cold cache) both call %s; the second one fails with '
+                       'FileExistsError and its compile_vform request raises instead of returning an assembler' % (call_name(c)), definite=True)
     ok = 'sys.path.append(MODDIR)' in t
     ctx.decide('R20.5', cm.qual, 'MODDIR on sys.path', ok, cm.node)
     tr = cm.node.body[i_try[0]] if i_try else None
